@@ -160,6 +160,24 @@ fn c01_node(b: &Board, pos: &Pos, legal: &[Mv], aux: &mut Expand, st: &mut Stats
             return Err(format!("C01 is_legal({m}) is false for a legal move at `{}`", pos.fen()));
         }
     }
+    // the king-only generator, for the side to move, yields exactly the king's legal moves
+    // (castling included)
+    {
+        let ksq = pos.king(pos.turn);
+        let want: Vec<Mv> = legal.iter().copied().filter(|m| Some(m.from) == ksq).collect();
+        let kit = b.king_legals(b.turn());
+        let (kl, ke) = (kit.len(), kit.is_empty());
+        let mut got: Vec<Mv> = kit.map(from_cm).collect();
+        got.sort();
+        let mut w = want.clone();
+        w.sort();
+        if got != w {
+            return Err(format!("C01 king_legals(side to move) differs from the king's legal moves at `{}`: {}", pos.fen(), diff_moves(&got, &w)));
+        }
+        if kl != w.len() || ke != w.is_empty() {
+            return Err(format!("C01 king_legals(side to move).len()={kl} is_empty()={ke} but the king has {} legal moves at `{}`", w.len(), pos.fen()));
+        }
+    }
     let bad = illegal_triples(pos, legal, aux, 32);
     for m in &bad {
         if b.is_legal(to_cm(*m)) {
@@ -531,6 +549,8 @@ pub fn run_play(cfg: &WalkCfg, case: &PlayCase, st: &mut Stats) -> Result<(), St
     }
     let mut aux = Expand(case.aux);
     let mut last: Option<(Pos, Mv)> = None;
+    // recycled output buffer for move_into: starts as an unrelated position with its own clocks
+    let mut scratch: Board = "r3k2r/8/8/8/1b6/8/3P4/R3K2R w KQkq - 37 61".parse().map_err(|e| format!("scratch board: {e:?}"))?;
     let mut node = case.aux % 64; // phase of the periodic deep checks varies by case
     match &case.root {
         Root::Named { .. } => st.class("root: named"),
@@ -563,8 +583,31 @@ pub fn run_play(cfg: &WalkCfg, case: &PlayCase, st: &mut Stats) -> Result<(), St
             c02_move(&b, &pos, m, st)?;
         }
         let next = pos.apply(m);
-        let Some(nb) = b.move_new(to_cm(m)) else {
-            return Err(format!("move_new refuses legal {m} at `{}`", pos.fen()));
+        // "playing a move" is any of the three checked operations; move_into writes into a buffer
+        // that holds an unrelated earlier position (other clocks, rights, check state), as a
+        // search or perft loop that recycles its boards does
+        let nb = if cfg.mode == Mode::C02 {
+            b.move_new(to_cm(m))
+        } else {
+            match mix(case.aux, node.wrapping_mul(3) + 7) % 3 {
+                0 => b.move_new(to_cm(m)),
+                1 => {
+                    let mut x = b;
+                    x.move_mut(to_cm(m)).then_some(x)
+                }
+                _ => {
+                    let ok = b.move_into(to_cm(m), &mut scratch);
+                    let out = scratch;
+                    scratch = b;
+                    if !st.frozen {
+                        st.class("move played with move_into into a recycled buffer");
+                    }
+                    ok.then_some(out)
+                }
+            }
+        };
+        let Some(nb) = nb else {
+            return Err(format!("a checked move operation refuses legal {m} at `{}`", pos.fen()));
         };
         if squares(&nb) != next.sq {
             // every mode needs the walk itself to stay in lockstep
